@@ -189,3 +189,52 @@ def digest_sha256(lines):
 
 def digest_sha1(lines):
     return "1" + "".join(l if isinstance(l, str) else l.decode("utf-8") for l in lines).encode("utf-8").hex()
+
+
+# ---------------------------------------------------------------- io.StringIO (C12, C17)
+class PyStringIO:
+    """Pure-Python io.StringIO for write()/getvalue()/read()/seek(0): the C implementation
+    realises every symbolic string written to it."""
+
+    def __init__(self, initial=""):
+        self._parts = [initial] if initial else []
+        self._pos = 0
+
+    def write(self, s):
+        if not isinstance(s, str):
+            raise TypeError("string argument expected, got %r" % type(s).__name__)
+        self._parts.append(s)
+        return len(s)
+
+    def getvalue(self):
+        return "".join(self._parts)
+
+    def seek(self, pos, whence=0):
+        self._pos = pos
+        return pos
+
+    def read(self, n=-1):
+        v = self.getvalue()[self._pos:]
+        self._pos += len(v)
+        return v
+
+    def close(self):
+        pass
+
+    def __enter__(self):
+        return self
+
+    def __exit__(self, *a):
+        return False
+
+
+class IoShim:
+    """Stands for the `io` module inside debian.copyright / debian.deb822."""
+
+    def __init__(self):
+        import io as _io
+        self._io = _io
+        self.StringIO = PyStringIO
+
+    def __getattr__(self, name):
+        return getattr(self._io, name)
